@@ -246,17 +246,18 @@ theorem fromSan_mem (T : Tables) (s : List Char) (m : Move)
     (h : fromSan T b s = .ok m) : m ∈ b.legalMoves T := by
   unfold fromSan at h
   simp only at h
-  have aux : ∀ (l : List Move) (x : Move),
-      (if l.contains x = true then Res.ok x else Res.err) = Res.ok m → m ∈ l := by
-    intro l x hx
+  have aux : ∀ (l : List Move) (x : Move) (c : Bool),
+      (if (c && l.contains x) = true then Res.ok x else Res.err) = Res.ok m → m ∈ l := by
+    intro l x c hx
     split at hx
     · rename_i hc
       injection hx with hx
       subst hx
-      exact List.contains_iff_mem.1 hc
+      rw [Bool.and_eq_true] at hc
+      exact List.contains_iff_mem.1 hc.2
     · cases hx
   split at h
-  · exact aux _ _ h
+  · exact aux _ _ _ h
   · split at h
     · cases h
     · rename_i f hf
